@@ -28,7 +28,7 @@ def gen_case(rng, cid):
         if rng.random() < p: args[name] = v
     if r == 'axpy':
         args['x'] = operand(rng, m, n, 'ds', tcs, bad); args['y'] = operand(rng, m, n, 'ds', tcs, bad); pos = ['x', 'y']
-        opt('alpha', num(rng)); opt('partial', {'bool': rng.random() < 0.5}, 0.3)
+        opt('alpha', num(rng)); opt('partial', {'bool': rng.random() < 0.6}, 0.4)
     elif r == 'gemm':
         tA, tB = rng.choice('NTC'), rng.choice('NTC')
         args['A'] = operand(rng, *( (m, k) if tA == 'N' else (k, m)), 'ds', tcs, bad)
@@ -161,6 +161,8 @@ def base_probes(ctx, rng, gb, prop='C19'):
                 stat['library_overread'] = stat.get('library_overread', 0) + 1; res = res2
             if res == 'twin-differs' and prop == 'C16':
                 ctx.violation('c16:sparse-dense-differ:' + case['routine'], '%s: the result with sparse operands differs from the result on their dense images' % show(case), case)
+            if res == 'partial-differs' and prop == 'C16':
+                ctx.violation('c16:partial-differs:' + case['routine'], '%s: with partial=True the stored entries of the sparse output are not the dense result restricted to the old pattern (or the pattern changed)' % show(case), case)
             if res == 'ccs-invalid' and prop == 'C16':
                 ctx.violation('c16:ccs-invalid:' + case['routine'], '%s leaves a sparse argument with invalid compressed-column arrays' % show(case), case)
             # decision of the translated checks of gemv / symv (Gen/BaseWrap.lean) vs the real wrapper
@@ -173,7 +175,7 @@ def base_probes(ctx, rng, gb, prop='C19'):
                     exp = dec[1] if dec[0] == 'reject' else 'ok' if dec[0] == 'none' else None
                     if exp is not None and res != exp:
                         ctx.violation('c19:decision-differs:base.' + case['routine'], '%s: the real wrapper gives %s, the checks as translated give %s' % (show(case), res, exp), case)
-            key = 'ok' if res == 'ok' else 'exception' if res not in ('twin-differs', 'ccs-invalid') else res
+            key = 'ok' if res == 'ok' else 'exception' if res not in ('twin-differs', 'ccs-invalid', 'partial-differs') else res
             stat[key] = stat.get(key, 0) + 1
             if res == 'ok': per[case['routine']] = per.get(case['routine'], 0) + 1
     finally:
